@@ -598,6 +598,24 @@ def block(ctx: Ctx, stmts, ret_wrap, ind="  ") -> str:
         ok = (len(s.handlers) == 1 and not s.orelse and not s.finalbody and ast.unparse(s.handlers[0].type) in ("NotImplementedError", "Exception", "TypeError", "ValueError")
               and len(s.body) == 1 and isinstance(s.body[0], ast.Assign) and len(hb) == 1 and isinstance(hb[0], ast.Assign)
               and ast.unparse(hb[0].targets[0]) == ast.unparse(s.body[0].targets[0]) and isinstance(s.body[0].targets[0], ast.Name))
+        ok2 = (len(s.handlers) == 1 and not s.orelse and not s.finalbody and ast.unparse(s.handlers[0].type) in ("NotImplementedError", "Exception", "TypeError", "ValueError", "(ValueError, TypeError)")
+               and len(s.body) == 1 and isinstance(s.body[0], ast.Assign) and isinstance(s.body[0].targets[0], ast.Name) and hb and isinstance(hb[-1], ast.Return))
+        if not ok and ok2:
+            # `try: X = <call> except <E>: ...; return v`: the call is an Option-valued oracle (`none` = it raised); the handler leaves the function
+            tgt = s.body[0].targets[0].id
+            call_ty = infer(ctx, s.body[0].value) or ""
+            if not call_ty.startswith("Option "):
+                raise Untranslatable(f"try/except-return: call of type {call_ty!r}")
+            inner = call_ty[len("Option "):].strip()
+            if inner.startswith("(") and inner.endswith(")"):
+                inner = inner[1:-1]
+            saved_defined = set(getattr(ctx, "defined", set()))
+            handler_txt = block(ctx, hb, ret_wrap, ind + "  ")
+            if hasattr(ctx, "defined"):
+                ctx.defined = saved_defined | {tgt}
+            ctx.types[tgt] = inner
+            return (f"match {expr(ctx, s.body[0].value)} with\n{ind}| none =>\n{ind}  {handler_txt}\n{ind}| some {li(tgt)} =>\n{ind}  "
+                    + block(ctx, rest, ret_wrap, ind + "  "))
         if not ok:
             raise Untranslatable("try/except of an unsupported shape")
         if ast.unparse(hb[0].value) == "None":
